@@ -244,7 +244,8 @@ def save_load(spec, ctx, obj, audio, path):
         ctx.call(spec, f"io.save({spec['ctype']})", io.save, obj, path, **skw)
         lkw = dict(kw, **({"format": "aoef"} if fsel == 2 else ({"format": None} if fsel == 3 else {})))
         if spec.get("typed_load"):
-            lkw["type"] = spec["ctype"]
+            # a string that arrives at run time (read from a config, split from a list) is equal to the literal, not identical to it
+            lkw["type"] = "".join(list(spec["ctype"])) if pick % 2 else spec["ctype"]
         if zones:
             os.environ["TZ"] = zones[1]
             time.tzset()
